@@ -28,10 +28,12 @@ def mutate(g, raw, side):
     if kind == "startline":
         if side == "request":
             lines[0] = g.choice([b"GET", b"GET /", b"FOO / HTTP/1.1", b"GET / FTP/1.1", b"", b"\x00\xff\xfe garbage", b"GET  /  HTTP/1.1  extra words",
-                                 b"GET / HTTP/9.9", b" / HTTP/1.1", b"POST /r0 HTTP/1.1 HTTP/1.1"])
+                                 b"GET / HTTP/9.9", b" / HTTP/1.1", b"POST /r0 HTTP/1.1 HTTP/1.1",
+                                 b"GET http://h:abc/ HTTP/1.1", b"GET http://[::1/r0 HTTP/1.1", b"GET //h:99999999/ HTTP/1.1", b"GET http://h:\xb2/ HTTP/1.1",
+                                 b"GET http://h]/ HTTP/1.1", b"GET /%zz%\xff HTTP/1.1", b"GET http://h:-1/ HTTP/1.1"])
         else:
             lines[0] = g.choice([b"HTTP/1.1 abc OK", b"HTTP/1.1 99 Low", b"FOO 200 OK", b"", b"HTTP/1.1", b"HTTP/1.1 1000 Big", b"\x00\xff", b"HTTP/3.0 200 OK",
-                                 b"HTTP/1.1 200", b"200 OK HTTP/1.1"])
+                                 b"HTTP/1.1 200", b"200 OK HTTP/1.1", b"HTTP/1.1 2\xb20 OK", b"HTTP/1.1 \xb3\xb2\xb9 OK", b"HTTP/1.\xb9 200 OK"])
         return kind, b"\r\n".join(lines)
     if kind == "header-nocolon":
         lines.insert(1, g.choice([b"BadHeaderLine", b"no colon here", b"\xff\xfe", b" leading: space"]))
@@ -45,7 +47,7 @@ def mutate(g, raw, side):
         head_l.append(b"Transfer-Encoding: chunked")
         data = b"hello world!"
         if kind == "chunk-size":
-            size = g.choice([b"zz", b"-5", b"1g", b"", b"ffffffffffffffffffff", b"0x5", b" ", b"5 5", b"\xff"])
+            size = g.choice([b"zz", b"-5", b"1g", b"", b"ffffffffffffffffffff", b"0x5", b" ", b"5 5", b"\xff", b"\xb2", b"c\xb3", b"+c", b"c_0"])
             body = size + b"\r\n" + data + b"\r\n0\r\n\r\n"
         else:
             body = b"c\r\n" + data + g.choice([b"XX", b"X\r\n", b"\n\n", b"\r\r\n", b"junk\r\n"]) + b"0\r\n\r\n"
@@ -53,7 +55,7 @@ def mutate(g, raw, side):
     if kind == "length":
         head, sep, body = raw.partition(b"\r\n\r\n")
         head_l = [l for l in head.split(b"\r\n") if not l.lower().startswith((b"content-length", b"transfer-encoding"))]
-        head_l.append(b"Content-Length: " + g.choice([b"abc", b"-1", b"99999", b"", b"1e3", b"5, 5", b"\xff"]))
+        head_l.append(b"Content-Length: " + g.choice([b"abc", b"-1", b"99999", b"", b"1e3", b"5, 5", b"\xff", b"\xb2", b"5\xb3", b"\xb9\xb2", b"+5", b"1_0", b" 5 ", b"0x5"]))
         return kind, b"\r\n".join(head_l) + b"\r\n\r\n" + b"12345"
     if kind == "random":
         return kind, bytes(g.randrange(256) for _ in range(g.randint(1, 120)))
